@@ -328,3 +328,26 @@ func (p *Program) fieldArray(st types.Type, i int) (string, Sort) {
 	f := s.Field(i)
 	return "H_" + p.typeName(st) + "." + f.Name(), ArrSort(SInt, p.sortOf(f.Type()))
 }
+
+// fieldTypeByArray: Go type of the field behind heap array "H_Type.field" (package types only).
+func (p *Program) fieldTypeByArray(name string) types.Type {
+	rest := name[2:]
+	dot := strings.LastIndex(rest, ".")
+	if dot < 0 {
+		return nil
+	}
+	obj := p.pkg.Types.Scope().Lookup(rest[:dot])
+	if obj == nil {
+		return nil
+	}
+	st, ok := structOf(obj.Type())
+	if !ok {
+		return nil
+	}
+	for i := 0; i < st.NumFields(); i++ {
+		if st.Field(i).Name() == rest[dot+1:] {
+			return st.Field(i).Type()
+		}
+	}
+	return nil
+}
